@@ -172,6 +172,12 @@ class Runner:
         self.state = fns.init_fn(self.params)
         self._upd = jax.jit(self.opt.update)
     else:
+      if o.get("warm_shapes"):
+        # the same optimizer object first serves ANOTHER tree of the same structure (other leaf shapes):
+        # nothing about one tree may stick to the object (hidden Python-side state)
+        sib = {f"p{i}": jnp.ones(tuple(s_), jnp.float32) for i, s_ in enumerate(o["warm_shapes"])}
+        st0 = self.opt.init(sib)
+        jax.jit(self.opt.update)(jax.tree.map(lambda x: 0.5 * x, sib), st0, sib)
       self.state = self.opt.init(self.params)
       self._upd = jax.jit(self.opt.update)
 
